@@ -13,3 +13,8 @@ add("C05","exploration",
  "Held on the generated (table, query, partition) triples and e2e runs counted in the evidence; partitions up to 4 servers x 3 files x 2 forced transmissions per file in-process, up to 5 servers e2e.",
  "Trusted: reference evaluator (internal/mq) written from the documentation, Go strconv; avg over non-numeric lines compared between runs only; e2e uses one file per server (known finding c06.agg-early-exit).",
  "DESIGN.md §2 C05")
+add("C03","exploration",
+ "runtime monitoring: exhaustive enumeration of selection vectors x context parameters through the real cat reader in worker processes, seeded regex/file generator, and real dgrep --plain runs (serverless + SSH); oracle = 25-line reference model of grep context semantics + Go regexp on the bare line",
+ "Exhaustive up to the line bound stated in the evidence (all selection vectors x before/after/max in {0,1,2,3,5,n+1} x invert x final newline), sampled beyond it (files to 5000 lines, generated RE2 patterns, e2e).",
+ "Trusted: Go regexp, the reference model; no-op patterns are not combined with --invert.",
+ "DESIGN.md §2 C03")
